@@ -587,7 +587,9 @@ impl<'a> IrV<'a> {
         let mut ids = Vec::new();
         for (p, v) in params.iter().zip(vals) {
             let pid: u32 = p.args()[0].atom().parse().ok()?;
-            st.insert(Var::Loc(pid), v.clone());
+            // an `out` parameter starts uninitialised in the callee whatever the argument held
+            let v0 = if dir_of(p.args()[1].atom()) == 1 { self.types.undef(&ir_ty(&p.args()[2])?)? } else { v.clone() };
+            st.insert(Var::Loc(pid), v0);
             ids.push(pid);
         }
         let fl = self.block(&f.args()[3], st, depth - 1)?;
